@@ -7,4 +7,6 @@ CONSTANTS
   ApplyAfterSave = FALSE
   Self = 1
   Peers = {2, 3}
+  Solo = FALSE
+  HoldCommitting = TRUE
 INVARIANTS PersistBeforeSend RestartOK ApplyNotAheadOfSave
